@@ -1,0 +1,15 @@
+//go:build verif
+
+// Verification-only exports for the ClientHello marshalling checks (build tag `verif`). Add-only.
+
+package tls
+
+// VerifQUICTPMarshalled returns the marshalled transport parameters exactly as
+// QUICTransportParametersExtension.Read writes them (the result cached by Len()).
+func VerifQUICTPMarshalled(e *QUICTransportParametersExtension) []byte {
+	e.Len()
+	return e.marshalResult
+}
+
+// VerifUQUICUConn exposes the UConn behind a UQUICConn.
+func VerifUQUICUConn(q *UQUICConn) *UConn { return q.conn }
